@@ -82,7 +82,17 @@ fn gen_payload(rng: &mut Rng, t: u64) -> (String, Option<bool>) {
         let off = *rng.pick(&offs);
         let at = t as i64 + off;
         let past = off < 0;
-        let v: Value = match rng.below(8) {
+        let mut edge: Option<bool> = None; // Some(in_past) for values that do not depend on the clock
+        let v: Value = match rng.below(10) {
+            // numeric edges: the epoch itself (a zero-initialised claims struct), +-1, signed zero, the ends of the integer and float ranges
+            8 | 9 => {
+                let (v, in_past) = match rng.below(12) {
+                    0 => (json!(0), true), 1 => (json!(0.0), true), 2 => (json!(-0.0), true), 3 => (json!(1), true), 4 => (json!(-1), true), 5 => (json!(1e-9), true),
+                    6 => (json!(i64::MIN), true), 7 => (json!(-1e308), true), 8 => (json!(i64::MAX), false), 9 => (json!(u64::MAX), false), 10 => (json!(1e308), false), _ => (json!(4294967296u64), false),
+                };
+                edge = Some(in_past);
+                v
+            }
             0 | 1 | 2 | 3 => json!(at),
             4 => json!(at as f64 + 0.5),
             5 => json!(-(at.abs())), // a negative NumericDate: long ago
@@ -94,7 +104,7 @@ fn gen_payload(rng: &mut Rng, t: u64) -> (String, Option<bool>) {
         match numeric {
             None => admits = Some(false),
             Some(x) => {
-                let in_past = if x < 0.0 { true } else { past };
+                let in_past = match edge { Some(e) => e, None => if x < 0.0 { true } else { past } };
                 let ok = match claim {
                     "exp" => !in_past,
                     _ => in_past, // nbf / iat must not be in the future
@@ -313,6 +323,62 @@ fn boundary(rep: &mut Report) {
     }
 }
 
+/// Two JWT fangs on one request path (an outer application that authenticates users, an inner one mounted below it with another secret /
+/// algorithm that reads its token from another header), both with the same payload type. Each fang decides for itself: the handler behind
+/// the inner fang runs only if the inner token is valid under the INNER configuration, whatever the outer fang admitted before, and it sees
+/// the inner token's payload.
+fn nested(rep: &mut Report, rng: &mut Rng, case: u64) {
+    let (oa, ia) = (rng.below(3), rng.below(3));
+    let (osec, isec) = (format!("outer-{}", rng.string_over(b"abcdef0123456789", 8, 40)), format!("inner-{}", rng.string_over(b"abcdef0123456789", 8, 40)));
+    let mk = |alg: usize, secret: &str| -> JWT<Value> { let s = secret.to_string(); match alg { 0 => JWT::new_256(s), 1 => JWT::new_384(s), _ => JWT::new_512(s) } };
+    let h = |Context(p): Context<'_, Value>| {
+        SEEN.with(|s| s.borrow_mut().push(serde_json::to_string(p).unwrap()));
+        async { "in" }
+    };
+    let inner = Ohkami::new((mk(ia, &isec).get_token_by(|req| req.headers.get("X-Admin-Token")), "/q".GET(h)));
+    let router = hook::Router::new(Ohkami::new((mk(oa, &osec), "/p".GET(h), "/admin".By(inner))));
+    let t = now();
+    let hdr = |alg: usize| format!(r#"{{"typ":"JWT","alg":"{}"}}"#, ALGS[alg]);
+    let opay = format!(r#"{{"sub":"user","who":"outer","exp":{}}}"#, t + 1000);
+    let ipay = format!(r#"{{"sub":"root","who":"inner","exp":{}}}"#, t + 1000);
+    let otok = sign(oa, &osec, &hdr(oa), &opay);
+    let itok = sign(ia, &isec, &hdr(ia), &ipay);
+    // (label, Authorization token, X-Admin-Token, path, expect run, payload the handler must see)
+    let cases: Vec<(&str, Option<String>, Option<String>, &str, bool, &str)> = vec![
+        ("both-valid", Some(otok.clone()), Some(itok.clone()), "/admin/q", true, &ipay),
+        ("outer-only", Some(otok.clone()), None, "/admin/q", false, ""),
+        ("outer-token-as-inner", Some(otok.clone()), Some(otok.clone()), "/admin/q", false, ""),
+        ("inner-signed-with-outer-key", Some(otok.clone()), Some(sign(ia, &osec, &hdr(ia), &ipay)), "/admin/q", false, ""),
+        ("inner-alg-none", Some(otok.clone()), Some(format!("{}.{}.", b64u(br#"{"typ":"JWT","alg":"none"}"#), b64u(ipay.as_bytes()))), "/admin/q", false, ""),
+        ("inner-expired", Some(otok.clone()), Some(sign(ia, &isec, &hdr(ia), &format!(r#"{{"sub":"root","exp":{}}}"#, t - 1000))), "/admin/q", false, ""),
+        ("inner-only", None, Some(itok.clone()), "/admin/q", false, ""),
+        ("outer-route-with-outer-token", Some(otok.clone()), None, "/p", true, &opay),
+        ("outer-route-with-inner-token", Some(itok.clone()), Some(itok.clone()), "/p", oa == ia && osec == isec, &ipay),
+    ];
+    for (label, auth, admin, path, expect, pay) in cases {
+        let mut bytes = format!("GET {path} HTTP/1.1\r\nHost: t\r\n").into_bytes();
+        if let Some(a) = &auth { bytes.extend_from_slice(format!("Authorization: Bearer {a}\r\n").as_bytes()) }
+        if let Some(a) = &admin { bytes.extend_from_slice(format!("X-Admin-Token: {a}\r\n").as_bytes()) }
+        bytes.extend_from_slice(b"\r\n");
+        SEEN.with(|s| s.borrow_mut().clear());
+        let _ = web::oneshot(&router, &bytes);
+        let seen: Vec<String> = SEEN.with(|s| s.borrow().clone());
+        rep.eval();
+        rep.count("nested_fang_requests");
+        rep.distinct(&format!("nested:{label}:{}:{}", ALGS[oa], ALGS[ia]));
+        let cj = json!({"case_index": case, "scenario": "nested", "label": label, "outer": {"alg": ALGS[oa], "secret": osec}, "inner": {"alg": ALGS[ia], "secret": isec}, "authorization": auth, "x_admin_token": admin, "path": path, "seen": seen});
+        match (expect, seen.last()) {
+            (false, Some(_)) => rep.violation(&format!("C12/false-admission:nested:{label}"), &format!("two JWT fangs on the path: the handler behind the inner fang ran for {label}"), cj),
+            (true, None) => rep.violation(&format!("C12/false-rejection:nested:{label}"), &format!("two JWT fangs on the path: {label} was refused"), cj),
+            (true, Some(p)) => {
+                let (want, got): (Option<Value>, Option<Value>) = (serde_json::from_str(pay).ok(), serde_json::from_str(p).ok());
+                if want != got { rep.violation("C12/payload-mismatch:nested", &format!("the handler saw {p}, the token of its own fang carries {pay}"), cj) }
+            }
+            _ => {}
+        }
+    }
+}
+
 pub fn run(args: &Args, rep: &mut Report) {
     let small = args.flag("small").is_some();
     if args.shard == 0 && args.start == 0 && !small {
@@ -325,6 +391,10 @@ pub fn run(args: &Args, rep: &mut Report) {
         if case >= args.start {
             rep.begin(case);
             let mut rng = Rng::derive(args.seed, 12, case);
+            if case % 4 == 1 {
+                let mut r2 = Rng::derive(args.seed, 1212, case);
+                nested(rep, &mut r2, case);
+            }
             let alg = rng.below(3);
             let secret = gen_secret(&mut rng);
             let router = app(alg, &secret);
